@@ -160,6 +160,9 @@ func extractSpec(s *rspec.Spec, cdi []string) *CState {
 			c.Res["rdt"] = l.IntelRdt.ClosID
 		}
 		if r := l.Resources; r != nil {
+			if r.BlockIO != nil && r.BlockIO.Weight != nil {
+				c.Res["blockio"] = fmt.Sprintf("cls%d", *r.BlockIO.Weight)
+			}
 			if m := r.Memory; m != nil {
 				if m.Limit != nil {
 					c.Res["mem.limit"] = strconv.FormatInt(*m.Limit, 10)
@@ -243,8 +246,12 @@ func c13Model(w *C13W) *CState {
 			// other memory fields are not applied by the generator (not in the statement's list)
 		case o.Kind == "cdi":
 			st.Res["cdi:"+o.Key] = "present"
-		case o.Kind == "blockio":
-			st.Res["blockio"] = valStr(o.Kind, o.Val)
+		case o.Kind == "blockio" || o.Kind == "rdt":
+			if v := valStr(o.Kind, o.Val); v == "" {
+				delete(st.Res, o.Kind) // an empty class clears it
+			} else {
+				st.Res[o.Kind] = v
+			}
 		default:
 			st.set(o)
 		}
